@@ -639,6 +639,13 @@ func (r *runningStep) run() {
 // - bool: True if the step was disabled due to context done.
 func (r *runningStep) enableStage() (bool, bool) {
 	// Enabling is the first stage, so do not transition out of it.
+	// A step that has not been told yet whether it is enabled is waiting for input, not starting:
+	// the deadlock detection of the workflow ignores steps that wait for input.
+	r.lock.Lock()
+	if !r.enabledInputAvailable {
+		r.currentState = step.RunningStepStateWaitingForInput
+	}
+	r.lock.Unlock()
 	var enabled bool
 	select {
 	case enabled = <-r.enabledInput:
